@@ -22,7 +22,8 @@ Record dcfg := { min_card : N; max_card : N; thr_num : N; thr_den : N }.
 Definition cfg_of_limit (lim initial : N) (tn td : N) : dcfg :=
   {| min_card := N.min initial lim; max_card := lim; thr_num := tn; thr_den := td |}.
 
-Record dict := { widths : list N; cur : nat; cum : N; prev_cum : N; card : N }.
+Record dict := { widths : list N; cur : nat; cum : N; prev_cum : N; card : N; just_reset : bool }.
+(* just_reset: the last cardinality update reset the dictionary (added by the fix of the reset loop) *)
 (* widths = [] : indexTypes == nil (dictionary disabled or overflowed: the column is sent plain) *)
 
 Definition slice (lo hi : nat) (l : list N) : list N := firstn (hi - lo + 1) (skipn lo l).
@@ -30,12 +31,12 @@ Definition slice (lo hi : nat) (l : list N) : list N := firstn (hi - lo + 1) (sk
 Definition init_widths (c : dcfg) : list N :=
   if max_card c =? 0 then [] else slice (find_index (min_card c)) (find_index (max_card c)) all_max.
 
-Definition dinit (c : dcfg) : dict := {| widths := init_widths c; cur := 0; cum := 0; prev_cum := 0; card := 0 |}.
+Definition dinit (c : dcfg) : dict := {| widths := init_widths c; cur := 0; cum := 0; prev_cum := 0; card := 0; just_reset := false |}.
 
 Definition add_total (d : dict) (n : N) : dict :=
-  {| widths := widths d; cur := cur d; cum := cum d + n; prev_cum := cum d; card := card d |}.
+  {| widths := widths d; cur := cur d; cum := cum d + n; prev_cum := cum d; card := card d; just_reset := just_reset d |}.
 Definition revert (d : dict) : dict :=
-  {| widths := widths d; cur := cur d; cum := prev_cum d; prev_cum := prev_cum d; card := card d |}.
+  {| widths := widths d; cur := cur d; cum := prev_cum d; prev_cum := prev_cum d; card := card d; just_reset := just_reset d |}.
 
 Inductive devent := DNone | DUpgrade | DReset | DOverflow.
 
@@ -54,15 +55,15 @@ Definition ratio_lt (c total : N) (cfg : dcfg) : bool :=
 
 Definition set_card (cfg : dcfg) (d : dict) (c : N) : dict * devent :=
   match widths d with
-  | [] => ({| widths := []; cur := cur d; cum := cum d; prev_cum := prev_cum d; card := c |}, DNone)
+  | [] => ({| widths := []; cur := cur d; cum := cum d; prev_cum := prev_cum d; card := c; just_reset := just_reset d |}, DNone)
   | ws =>
       let k := advance ws (cur d) c (length ws) in
       if (length ws <=? k)%nat then
-        if ratio_lt c (cum d) cfg
-        then ({| widths := ws; cur := (length ws - 1)%nat; cum := 0; prev_cum := prev_cum d; card := c |}, DReset)
-        else ({| widths := []; cur := 0; cum := cum d; prev_cum := prev_cum d; card := c |}, DOverflow)
-      else if Nat.eqb k (cur d) then ({| widths := ws; cur := k; cum := cum d; prev_cum := prev_cum d; card := c |}, DNone)
-      else ({| widths := ws; cur := k; cum := cum d; prev_cum := prev_cum d; card := c |}, DUpgrade)
+        if ratio_lt c (cum d) cfg && negb (just_reset d)
+        then ({| widths := ws; cur := (length ws - 1)%nat; cum := 0; prev_cum := prev_cum d; card := c; just_reset := true |}, DReset)
+        else ({| widths := []; cur := 0; cum := cum d; prev_cum := prev_cum d; card := c; just_reset := just_reset d |}, DOverflow)
+      else if Nat.eqb k (cur d) then ({| widths := ws; cur := k; cum := cum d; prev_cum := prev_cum d; card := c; just_reset := false |}, DNone)
+      else ({| widths := ws; cur := k; cum := cum d; prev_cum := prev_cum d; card := c; just_reset := false |}, DUpgrade)
   end.
 
 (* ------------------------------------------------------------- record level *)
@@ -194,7 +195,7 @@ Proof.
   - intros H Hne Hcur.
     set (k := advance (w :: ws) (cur d) c (length (w :: ws))) in *.
     destruct (length (w :: ws) <=? k)%nat eqn:E1.
-    + destruct (ratio_lt c (cum d) cfg); discriminate.
+    + destruct (ratio_lt c (cum d) cfg && negb (just_reset d)); discriminate.
     + destruct (Nat.eqb k (cur d)) eqn:E2; [|discriminate].
       injection H as <-. cbn [widths cur]. apply Nat.eqb_eq in E2.
       split; [reflexivity|]. split; [exact E2|].
@@ -214,7 +215,7 @@ Proof.
   - intros H [Hc|Hc]; [discriminate|].
     set (k := advance (w :: ws) (cur d) c (length (w :: ws))) in *.
     destruct (length (w :: ws) <=? k)%nat eqn:E1.
-    + destruct (ratio_lt c (cum d) cfg); injection H as <- <-; cbn [widths cur]; [right|left; reflexivity].
+    + destruct (ratio_lt c (cum d) cfg && negb (just_reset d)); injection H as <- <-; cbn [widths cur]; [right|left; reflexivity].
       split; [reflexivity|cbn [length]; lia].
     + apply Nat.leb_gt in E1.
       destruct (Nat.eqb k (cur d)); injection H as <- <-; cbn [widths cur]; right; split; try reflexivity; exact E1.
@@ -304,11 +305,12 @@ Proof.
       eapply IH; [apply map_update_wf; exact Hw1|exact E].
 Qed.
 
-(* Termination is NOT guaranteed by the reset rule: one batch with more distinct values than the
-   limit and enough repetition resets forever (the recorded C04/C08 finding) *)
-Example reset_loop_panics :
+(* The reset regime after the fix: one batch with more distinct values than the limit and enough
+   repetition is reset once, overflows on the rebuilt record, and is sent plain at the third attempt
+   (before the fix the reset rule looped until the retry budget was exhausted: the recorded C04/C08 finding). *)
+Example reset_then_overflow :
   let cfg := cfg_of_limit 255 255 3 10 in
-  snd (fst (produce budget false [col_init cfg] [(3000, map N.of_nat (seq 0 300))] 0)) = PanicTooMany.
+  snd (fst (produce budget false [col_init cfg] [(3000, map N.of_nat (seq 0 300))] 0)) = Sent [None] 3.
 Proof. vm_compute. reflexivity. Qed.
 
 (* ---- one limit for all columns of a record (pkg/config: LimitIndexSize), over whole histories ---- *)
@@ -385,4 +387,189 @@ Proof.
   split; apply Forall_map; apply Forall_forall; intros i _.
   - apply col_init_wf. unfold cfg_of_limit. cbn. lia.
   - reflexivity.
+Qed.
+
+(* ------------------------------------------------------------- termination of the retry loop *)
+(* After any schema update every builder is fresh (memo empty), so on the rebuilt record every
+   dictionary column sees the same cardinality u = number of distinct values of the batch.  The number
+   of further failed attempts a column can cause is bounded by `meas`: 0 if u fits the current index,
+   1 if a wider index fits (one upgrade) or the column was just reset (it overflows), 2 otherwise
+   (a reset, then an overflow). *)
+Definition meas (d : dict) (u : N) : nat :=
+  match widths d with
+  | [] => 0%nat
+  | ws => let k := advance ws (cur d) u (length ws) in
+          if (length ws <=? k)%nat then (if just_reset d then 1%nat else 2%nat)
+          else if Nat.eqb k (cur d) then 0%nat else 1%nat
+  end.
+
+Definition ubatch (b : colbatch) : N := lenN (uniq (snd b)).
+
+(* where the upgrade loop stops: out of range, or at an index that fits; everything skipped was too small *)
+Lemma advance_spec ws c : forall fuel k j,
+  advance ws k c fuel = j ->
+  (k <= j)%nat /\
+  (j = (k + fuel)%nat \/ (length ws <= j)%nat \/ (exists m, nth_error ws j = Some m /\ c <= m)) /\
+  (forall i, (k <= i < j)%nat -> exists m, nth_error ws i = Some m /\ m < c).
+Proof.
+  induction fuel as [|f IH]; intros k j H; cbn [advance] in H.
+  - subst. split; [lia|]. split; [left; lia|]. intros i Hi. lia.
+  - destruct (nth_error ws k) as [m|] eqn:En.
+    + destruct (m <? c) eqn:E.
+      * apply IH in H. destruct H as (H1 & H2 & H3). split; [lia|]. split.
+        -- destruct H2 as [H2|H2]; [left; lia|right; exact H2].
+        -- intros i Hi. destruct (Nat.eq_dec i k) as [->|Hne]; [exists m; split; [exact En|apply N.ltb_lt; exact E]|].
+           apply H3. lia.
+      * subst. split; [lia|]. split; [right; right; exists m; split; [exact En|apply N.ltb_ge; exact E]|]. intros i Hi. lia.
+    + subst. split; [lia|]. split; [right; left; apply nth_error_None; exact En|]. intros i Hi. lia.
+Qed.
+
+Lemma advance_stay ws c k m fuel : nth_error ws k = Some m -> c <= m -> advance ws k c fuel = k.
+Proof.
+  intros En Hm. destruct fuel as [|f]; [reflexivity|]. cbn [advance]. rewrite En.
+  assert (E : m <? c = false) by (apply N.ltb_ge; exact Hm). rewrite E. reflexivity.
+Qed.
+
+Lemma advance_last ws c m fuel : (0 < fuel)%nat -> (0 < length ws)%nat ->
+  nth_error ws (length ws - 1) = Some m -> m < c -> (length ws <= advance ws (length ws - 1) c fuel)%nat.
+Proof.
+  intros Hf Hl En Hm. destruct fuel as [|f]; [lia|]. cbn [advance]. rewrite En.
+  assert (E : m <? c = true) by (apply N.ltb_lt; exact Hm). rewrite E.
+  pose proof (advance_ge ws c f (S (length ws - 1))). lia.
+Qed.
+
+(* the decisive step: on a fresh builder (memo empty) an attempt either raises no event and keeps the
+   measure at 0, or strictly decreases the measure of the rebuilt column *)
+Lemma meas_unfold d u w ws : widths d = w :: ws ->
+  meas d u = let k := advance (w :: ws) (cur d) u (length (w :: ws)) in
+             if (length (w :: ws) <=? k)%nat then (if just_reset d then 1%nat else 2%nat)
+             else if Nat.eqb k (cur d) then 0%nat else 1%nat.
+Proof. intros H. unfold meas. rewrite H. reflexivity. Qed.
+
+Lemma fresh_attempt c b c' e v :
+  WF c -> c_memo c = [] -> col_attempt c b = (c', e, v) ->
+  (meas (c_dict c) (ubatch b) = 0%nat -> e = DNone /\ meas (c_dict (col_update c')) (ubatch b) = 0%nat) /\
+  ((0 < meas (c_dict c) (ubatch b))%nat -> (meas (c_dict (col_update c')) (ubatch b) < meas (c_dict c) (ubatch b))%nat).
+Proof.
+  intros [Hmm HW] Hmemo H. unfold col_attempt in H. rewrite Hmemo in H. cbn [app] in H. fold (ubatch b) in H.
+  destruct (widths (c_dict c)) as [|w0 ws0] eqn:Ew.
+  - injection H as <- <- <-.
+    assert (Hz : meas (c_dict c) (ubatch b) = 0%nat) by (unfold meas; rewrite Ew; reflexivity).
+    assert (Hz2 : meas (c_dict (col_update c)) (ubatch b) = 0%nat) by (unfold meas, col_update; cbn [c_dict revert widths]; rewrite Ew; reflexivity).
+    rewrite Hz, Hz2. split; [intros _; split; reflexivity|intros Hlt; lia].
+  - destruct HW as [HW|[HW1 HW2]]; [discriminate|].
+    rewrite (meas_unfold _ _ _ _ Ew). cbv zeta.
+    set (u := ubatch b) in *.
+    unfold set_card in H. cbn [add_total widths cur cum prev_cum just_reset] in H. rewrite Ew in H.
+    remember (w0 :: ws0) as ws eqn:Ews.
+    set (k := advance ws (cur (c_dict c)) u (length ws)) in *.
+    destruct (advance_spec ws u (length ws) (cur (c_dict c)) k eq_refl) as (Hge & Hstop & Hskipped).
+    assert (Hlen : (0 < length ws)%nat) by (rewrite Ews; cbn; lia).
+    destruct (length ws <=? k)%nat eqn:E1.
+    + apply Nat.leb_le in E1.
+      destruct (Hskipped (length ws - 1)%nat ltac:(lia)) as (mlast & Enl & Hml).
+      destruct (ratio_lt u (cum (c_dict c) + fst b) (c_cfg c) && negb (just_reset (c_dict c))) eqn:Er.
+      * injection H as <- <- <-. apply andb_true_iff in Er. destruct Er as [_ Ejr]. apply negb_true_iff in Ejr.
+        rewrite Ejr. split; [intros Hz; lia|intros _].
+        match goal with |- context [meas (c_dict (col_update ?X)) u] =>
+          assert (Ew' : widths (c_dict (col_update X)) = w0 :: ws0) by (cbn; exact Ews) end.
+        rewrite (meas_unfold _ _ _ _ Ew'). cbv zeta. rewrite <- Ews. cbn [col_update c_dict revert cur just_reset].
+        pose proof (advance_last ws u mlast (length ws) Hlen Hlen Enl Hml) as Hadv.
+        assert (E2 : (length ws <=? advance ws (length ws - 1) u (length ws))%nat = true) by (apply Nat.leb_le; exact Hadv).
+        rewrite E2. lia.
+      * injection H as <- <- <-. split; [intros Hz; destruct (just_reset (c_dict c)); lia|intros _].
+        unfold meas, col_update. cbn [c_dict revert widths]. destruct (just_reset (c_dict c)); lia.
+    + apply Nat.leb_gt in E1.
+      destruct Hstop as [Hstop|[Hstop|(m & Enk & Hmk)]]; [lia|lia|].
+      assert (E3 : (length ws <=? k)%nat = false) by (apply Nat.leb_gt; exact E1).
+      destruct (Nat.eqb k (cur (c_dict c))) eqn:E2.
+      * injection H as <- <- <-. split; [intros _|intros Hlt; lia]. split; [reflexivity|].
+        match goal with |- context [meas (c_dict (col_update ?X)) u] =>
+          assert (Ew' : widths (c_dict (col_update X)) = w0 :: ws0) by (cbn; exact Ews) end.
+        rewrite (meas_unfold _ _ _ _ Ew'). cbv zeta. rewrite <- Ews. cbn [col_update c_dict revert cur just_reset].
+        rewrite (advance_stay ws u k m (length ws) Enk Hmk). rewrite E3, Nat.eqb_refl. reflexivity.
+      * injection H as <- <- <-. split; [intros Hz; lia|intros _].
+        match goal with |- context [meas (c_dict (col_update ?X)) u] =>
+          assert (Ew' : widths (c_dict (col_update X)) = w0 :: ws0) by (cbn; exact Ews) end.
+        rewrite (meas_unfold _ _ _ _ Ew'). cbv zeta. rewrite <- Ews. cbn [col_update c_dict revert cur just_reset].
+        rewrite (advance_stay ws u k m (length ws) Enk Hmk). rewrite E3, Nat.eqb_refl. lia.
+Qed.
+
+Lemma meas_le_2 d u : (meas d u <= 2)%nat.
+Proof.
+  unfold meas. destruct (widths d) as [|w ws]; [lia|].
+  destruct (length (w :: ws) <=? advance (w :: ws) (cur d) u (length (w :: ws)))%nat; [destruct (just_reset d); lia|].
+  destruct (Nat.eqb _ _); lia.
+Qed.
+
+Fixpoint fresh_le (n : nat) (cs : list col) (bs : list colbatch) : Prop :=
+  match cs, bs with
+  | c :: ct, b :: bt => WF c /\ c_memo c = [] /\ (meas (c_dict c) (ubatch b) <= n)%nat /\ fresh_le n ct bt
+  | _, _ => True
+  end.
+
+Lemma fresh_le_updated cs : forall bs, Forall WF cs -> fresh_le 2 (map col_update cs) bs.
+Proof.
+  induction cs as [|c ct IH]; intros [|b bt] H; cbn [map fresh_le]; try exact I.
+  inversion H; subst. split; [apply col_update_wf; assumption|]. split; [reflexivity|]. split; [apply meas_le_2|]. apply IH. assumption.
+Qed.
+
+Lemma attempt_fresh_list n : forall cs bs cs' es vs,
+  fresh_le n cs bs -> attempt_cols cs bs = (cs', es, vs) ->
+  (n = 0%nat -> forallb is_none es = true) /\ fresh_le (Nat.pred n) (map col_update cs') bs.
+Proof.
+  induction cs as [|c ct IH]; intros bs cs' es vs HF H; cbn [attempt_cols] in H.
+  - injection H as <- <- <-. split; [reflexivity|]. cbn. exact I.
+  - destruct bs as [|b bt]; [injection H as <- <- <-; split; [reflexivity|cbn; exact I]|].
+    destruct (col_attempt c b) as [[c1 e1] v1] eqn:E1.
+    destruct (attempt_cols ct bt) as [[cs1 es1] vs1] eqn:E2. injection H as <- <- <-.
+    cbn [fresh_le] in HF. destruct HF as (HW & Hm & Hle & HFt).
+    pose proof (fresh_attempt _ _ _ _ _ HW Hm E1) as [Hz Hpos].
+    pose proof (col_attempt_spec _ _ _ _ _ HW E1) as (HW1 & _).
+    destruct (IH _ _ _ _ HFt E2) as [Hn Hft].
+    split.
+    + intros ->. cbn [forallb]. assert (Hm0 : meas (c_dict c) (ubatch b) = 0%nat) by lia.
+      destruct (Hz Hm0) as [-> _]. cbn [is_none andb]. apply Hn. reflexivity.
+    + cbn [map fresh_le]. split; [apply col_update_wf; exact HW1|]. split; [reflexivity|]. split; [|exact Hft].
+      destruct (Nat.eq_dec (meas (c_dict c) (ubatch b)) 0) as [Hm0|Hm0].
+      * destruct (Hz Hm0) as [_ Hz2]. lia.
+      * specialize (Hpos ltac:(lia)). lia.
+Qed.
+
+Lemma produce_S f pend cs bs n :
+  produce (S f) pend cs bs n =
+    if pend then
+      let '(cs', o, log) := produce f false (map col_update cs) bs (S n) in (cs', o, [] :: log)
+    else
+      let '(cs1, es, vs) := attempt_cols cs bs in
+      if forallb is_none es then (cs1, Sent vs (S n), [es])
+      else let '(cs', o, log) := produce f false (map col_update cs1) bs (S n) in (cs', o, es :: log).
+Proof. reflexivity. Qed.
+
+Lemma fresh_no_panic : forall n fuel cs bs k,
+  fresh_le n cs bs -> (n < fuel)%nat -> snd (fst (produce fuel false cs bs k)) <> PanicTooMany.
+Proof.
+  induction n as [|n IH]; intros fuel cs bs k HF Hlt; (destruct fuel as [|f]; [lia|]); rewrite produce_S.
+  - destruct (attempt_cols cs bs) as [[cs1 es] vs] eqn:E1.
+    destruct (attempt_fresh_list _ _ _ _ _ _ HF E1) as [Hn _]. rewrite (Hn eq_refl). cbn. discriminate.
+  - destruct (attempt_cols cs bs) as [[cs1 es] vs] eqn:E1.
+    destruct (attempt_fresh_list _ _ _ _ _ _ HF E1) as [_ Hft]. cbn [Nat.pred] in Hft.
+    destruct (forallb is_none es); [cbn; discriminate|].
+    specialize (IH f (map col_update cs1) bs (S k) Hft ltac:(lia)).
+    destruct (produce f false (map col_update cs1) bs (S k)) as [[cs2 o2] log2]. cbn [fst snd] in *. exact IH.
+Qed.
+
+(* The retry loop of recordBuilder never exhausts its budget on dictionary events: at most one arbitrary
+   first attempt, then (on fresh builders) at most an upgrade or a reset followed by an overflow. *)
+Lemma produce_no_panic cs bs pend k :
+  Forall WF cs -> snd (fst (produce budget pend cs bs k)) <> PanicTooMany.
+Proof.
+  intros HW. change budget with (S 5). rewrite produce_S. destruct pend.
+  - pose proof (fresh_no_panic 2 5 (map col_update cs) bs (S k) (fresh_le_updated cs bs HW) ltac:(lia)) as H.
+    destruct (produce 5 false (map col_update cs) bs (S k)) as [[cs2 o2] log2]. exact H.
+  - destruct (attempt_cols cs bs) as [[cs1 es] vs] eqn:E1.
+    pose proof (attempt_cols_spec _ _ _ _ _ HW E1) as (Hw1 & _).
+    destruct (forallb is_none es); [cbn; discriminate|].
+    pose proof (fresh_no_panic 2 5 (map col_update cs1) bs (S k) (fresh_le_updated cs1 bs Hw1) ltac:(lia)) as H.
+    destruct (produce 5 false (map col_update cs1) bs (S k)) as [[cs2 o2] log2]. exact H.
 Qed.
